@@ -24,7 +24,8 @@
 //   C07:setLocatorsByColIdx:wrong-column                      the roles went to other columns than the ones addressed
 //   C07:setLocator-own-type                                   role (re)assigned to a column that already has that type
 //   C07:addColumns-useSel-with-SEL-role                       addColumns/setColumn(new)(…, ELoc::SEL, …, useSel=true)
-//   C07:setItem-useSel                                        setItem(name, values, useSel=true) (normally dies in ASan first)
+//   C07:setItem-useSel                                        setItem(name(s) | locator, values, useSel=true)  (fixed 40bee2f2d)
+//   C07:setItem-rows-useSel                                   setItem(rows, ..., useSel=true): rows = ranks among the active samples
 //   C07:name-as-pattern:own-name-designates-another-column    state: a name read as a regex also matches another column
 //   C07:name-as-pattern:deleteColumnByColIdx | :setName(list) operations that go through such a name
 //   C07:isUIDDefined:inconsistent-with-getColIdxByUID         state: getter answer, independent of the last operation
@@ -1606,7 +1607,8 @@ static RunResult runHistory(const Init& in, std::vector<Op>& ops, Ctx* c, const 
       // generation mode: the next operation is drawn for the state reached so far
       Op nop;
       PROFT(0);
-      if (gen == nullptr || (int)i >= genLen || !genOp(*gen, s, nop)) break;
+      if (gen != nullptr && script != nullptr && i < script->size()) nop = findOp((*script)[i], s);
+      else if (gen == nullptr || (int)i >= genLen || !genOp(*gen, s, nop)) break;
       ops.push_back(nop);
     }
     const Op op = ops[i];
@@ -1632,11 +1634,11 @@ static RunResult runHistory(const Init& in, std::vector<Op>& ops, Ctx* c, const 
     }
     auto v = checkInv((int)i, opkey, true, locKey);
     // A known-defect input class gets ONE key whatever rule it breaks in that step:
-    //  - setLocatorsByColIdx addressing the wrong columns (D2) -> C07:setLocatorsByColIdx:wrong-column
-    //  - otherwise the class named by the model (Exp::cls)      -> C07:<cls>
+    //  - the class named by the model (Exp::cls)                               -> C07:<cls>
+    //  - else setLocatorsByColIdx addressing the wrong columns (D2, fixed c960a0820) -> C07:setLocatorsByColIdx:wrong-column
     std::string classKey;
-    if (op.name == "setLocatorsByColIdx" && rolesFailed) classKey = "C07:setLocatorsByColIdx:wrong-column";
-    else if (!e.cls.empty()) classKey = "C07:" + e.cls;
+    if (!e.cls.empty()) classKey = "C07:" + e.cls;
+    else if (op.name == "setLocatorsByColIdx" && rolesFailed) classKey = "C07:setLocatorsByColIdx:wrong-column";
     if (!classKey.empty())
       for (size_t k = nb; k < res.fails.size(); k++)
         if (res.fails[k].key.compare(0, 4 + opkey.size() + 1, "C07:" + opkey + ":") == 0) res.fails[k].key = classKey;
@@ -1728,10 +1730,10 @@ static void run_case(Rng& r, Ctx& c)
     else len = u < 0.25 ? r.irange(5, 20) : u < 0.7 ? r.irange(21, 60) : u < 0.93 ? r.irange(61, 150) : r.irange(151, 400);
   }
   // Dedicated probes: one small scripted prefix per OPEN known-defect class, so that each of those keys is reached in
-  // every run (cases with index % 50 in 0..6); the history then goes on at random like any other.
+  // every run (cases with index % 50 in 0..7); the history then goes on at random like any other.
   std::vector<Scripted> script;
   int probe = (int)(c.icase % 50);
-  if (probe <= 6)
+  if (probe <= 7)
   {
     in        = Init();
     in.kind   = 0;
@@ -1774,6 +1776,12 @@ static void run_case(Rng& r, Ctx& c)
         in.locs  = {"NA", "sel"};
         script.push_back({gen_addColumns, [](const Op& o) { return o.name == "addColumns" && o.args.find(",SEL,0,useSel=1,") != std::string::npos && o.args.find("nvar=1") != std::string::npos; }, "addColumns(SEL, useSel)"});
         break;
+    }
+    if (probe == 7) // second ACTIVE sample (= third sample) addressed by its rank among the active ones
+    {
+      in.names = {"a", "s"};
+      in.locs  = {"NA", "sel"};
+      script.push_back({gen_setItem, [](const Op& o) { return o.name == "setItem(rows,name)" && o.args.compare(0, 10, "{1},{'a'},") == 0 && o.args.find("useSel=1") != std::string::npos; }, "setItem(rows, name, useSel)"});
     }
     in.nvar = (int)in.names.size();
     in.tab.clear();
